@@ -102,11 +102,6 @@ func witnessDesigns() []DCase {
 	add("goify-collision-attributes", svc1("w_collide_attrs", &dg.Method{Name: "m",
 		Payload: pa(dg.A(dg.Obj(dg.F("foo_bar", dg.Prim("String")), dg.F("fooBar", dg.Prim("Int"))))),
 		HTTP:    &dg.HTTPMap{Routes: []dg.Route{{Verb: "POST", Path: "/m"}}}}))
-	// Tag naming an attribute the result lacks
-	add("tag-missing-attribute", svc1("w_tag_missing", &dg.Method{Name: "m",
-		Result: pa(dg.A(dg.Obj(dg.F("a", dg.Prim("String"))))),
-		HTTP: &dg.HTTPMap{Routes: []dg.Route{{Verb: "GET", Path: "/m"}},
-			Responses: []dg.Response{{Status: 202, Tag: []string{"zzz", "v"}}, {Status: 200}}}}))
 	// map keyed by an array
 	add("map-key-not-primitive-cli-example", svc1("w_map_array_key", &dg.Method{Name: "m",
 		Payload: pa(dg.A(dg.Obj(dg.F("mm", dg.MapOf(dg.A(dg.ArrayOf(dg.A(dg.Prim("String")))), dg.A(dg.Prim("String"))))))),
